@@ -5,8 +5,10 @@ package c15
 import (
 	"bytes"
 	"fmt"
+	"reflect"
 	"sort"
 	"strings"
+	"unsafe"
 
 	"github.com/anishathalye/porcupine"
 	"github.com/lugu/qiloop/bus"
@@ -300,6 +302,8 @@ func (o op) String() string {
 		return fmt.Sprintf("update(%d,%q,%s)", o.id, o.name, o.eps)
 	case "services":
 		return "services()"
+	case "l-reserve", "l-resolve":
+		return fmt.Sprintf("%s(%q)", o.kind, o.name)
 	}
 	return fmt.Sprintf("%s(%d)", o.kind, o.id)
 }
@@ -439,7 +443,245 @@ func sequential(depth int, populated bool) func() {
 }
 
 // ---------------------------------------------------------------------
+// local path: the hosting server's own bus.Namespace
+
+// localNamespace digs the bus.Namespace the hosting server registers its own
+// services with out of the session it hands out (Server.Session() is built by
+// that namespace). Nothing exported leads there, so the fields of the session
+// are searched for one whose value implements bus.Namespace; when the layout of
+// a changed tree offers none the local histories are skipped (recorded, never
+// an alarm).
+func localNamespace(srv bus.Server) bus.Namespace {
+	sess := srv.Session()
+	if ns, ok := sess.(bus.Namespace); ok {
+		return ns
+	}
+	v := reflect.ValueOf(sess)
+	for v.Kind() == reflect.Ptr || v.Kind() == reflect.Interface {
+		if v.IsNil() {
+			return nil
+		}
+		v = v.Elem()
+	}
+	if v.Kind() != reflect.Struct || !v.CanAddr() {
+		return nil
+	}
+	want := reflect.TypeOf((*bus.Namespace)(nil)).Elem()
+	for i := 0; i < v.NumField(); i++ {
+		f := v.Field(i)
+		if !f.Type().Implements(want) {
+			continue
+		}
+		f = reflect.NewAt(f.Type(), unsafe.Pointer(f.UnsafeAddr())).Elem()
+		if (f.Kind() == reflect.Ptr || f.Kind() == reflect.Interface) && f.IsNil() {
+			continue
+		}
+		if ns, ok := f.Interface().(bus.Namespace); ok {
+			return ns
+		}
+	}
+	return nil
+}
+
+func localAlphabet() []op {
+	var a []op
+	for _, n := range []string{"a", "b", ""} {
+		a = append(a, op{kind: "l-reserve", name: n})
+	}
+	for id := uint32(2); id <= 4; id++ {
+		a = append(a, op{kind: "l-enable", id: id}, op{kind: "l-remove", id: id})
+	}
+	a = append(a, op{kind: "l-resolve", name: "a"}, op{kind: "l-resolve", name: "b"})
+	// the remote operations the local ones interact with
+	a = append(a, op{kind: "register", name: "a", eps: "tcp://x"}, op{kind: "register", name: "b", eps: "tcp://x"})
+	for id := uint32(2); id <= 3; id++ {
+		a = append(a, op{kind: "ready", id: id}, op{kind: "unregister", id: id})
+	}
+	a = append(a, op{kind: "service", name: "a"}, op{kind: "services"})
+	return a
+}
+
+// applyLocal runs one operation of the hosting server's namespace on the
+// implementation and on the model.
+func applyLocal(ns bus.Namespace, m *model, o op, hist string) {
+	fail := func(clause, format string, args ...interface{}) {
+		vrt.Failf(clause+"/"+o.kind, "after [%s] %s: %s", hist, o, fmt.Sprintf(format, args...))
+	}
+	switch o.kind {
+	case "l-reserve":
+		id, err := ns.Reserve(o.name)
+		last := m.lastID
+		if err == nil {
+			if _, staged := m.staging[id]; staged {
+				fail("identifier-differs", "the local reservation returned identifier %d, which an earlier registration holds", id)
+				return
+			}
+			if _, live := m.services[id]; live {
+				fail("identifier-differs", "the local reservation returned identifier %d, which a registered service holds", id)
+				return
+			}
+		}
+		ok, idOK := m.registerAs(o.name, "tcp://"+sdHost, id)
+		if ok != (err == nil) {
+			fail("answer-differs", "implementation error=%v, model accepts=%v", err, ok)
+		} else if ok && !idOK {
+			fail("identifier-differs", "implementation assigned %d, which is not above the identifiers handed out before (the last one was %d)", id, last)
+		}
+	case "l-enable":
+		err := ns.Enable(o.id)
+		if ok := m.ready(o.id); ok != (err == nil) {
+			fail("answer-differs", "implementation error=%v, model accepts=%v", err, ok)
+		}
+	case "l-remove":
+		err := ns.Remove(o.id)
+		if ok := m.unregister(o.id); ok != (err == nil) {
+			fail("answer-differs", "implementation error=%v, model accepts=%v", err, ok)
+		}
+	case "l-resolve":
+		id, err := ns.Resolve(o.name)
+		mid, _, ok := m.lookup(o.name)
+		if ok != (err == nil) {
+			fail("answer-differs", "implementation error=%v, model finds=%v", err, ok)
+		} else if ok && id != mid {
+			fail("lookup-differs", "implementation resolved %q to %d, model %d", o.name, id, mid)
+		}
+	}
+}
+
+// sequentialLocal: histories mixing the hosting server's namespace (Reserve,
+// Enable, Remove, Resolve: what Server.NewService and Service.Terminate are made
+// of, including the states an activation that fails half-way leaves behind: a
+// reservation that is never enabled) with remote operations, against the same
+// reference registry.
+func sequentialLocal(depth int) func() {
+	return func() {
+		d := startDirectory()
+		ns := localNamespace(d.srv)
+		if ns == nil {
+			vrt.Flag("local-namespace-not-reachable")
+			vrt.Observe("skipped")
+			return
+		}
+		p := d.client()
+		m := initialModel()
+		hist := ""
+		ev := d.watch()
+		abc := localAlphabet()
+		var seq []op
+		for i := 0; i < depth; i++ {
+			k := vrt.ChooseFree(len(abc)+1, "op")
+			if k == len(abc) {
+				break
+			}
+			seq = append(seq, abc[k])
+		}
+		vrt.Explore()
+		for _, o := range seq {
+			if strings.HasPrefix(o.kind, "l-") {
+				applyLocal(ns, m, o, hist)
+			} else {
+				apply(p, m, o, hist)
+			}
+			hist += o.String() + ";"
+			vrt.Quiesce()
+		}
+		apply(p, m, op{kind: "services"}, hist)
+		vrt.Quiesce()
+		for _, k := range []string{"added", "removed"} {
+			var g, w []string
+			for _, e := range ev.got {
+				if strings.HasPrefix(e, k) {
+					g = append(g, e)
+				}
+			}
+			for _, e := range m.events {
+				if strings.HasPrefix(e, k) {
+					w = append(w, e)
+				}
+			}
+			if strings.Join(g, " ") != strings.Join(w, " ") {
+				vrt.Failf("events-differ/"+k, "after [%s]: %s events received [%s], model [%s]", hist, k, strings.Join(g, " "), strings.Join(w, " "))
+			}
+		}
+		fx.Settle()
+		vrt.Observe("%s => %s", hist, m.key())
+	}
+}
+
+// ---------------------------------------------------------------------
 // part 2: concurrency
+
+// listDuringReplacement: the hosting server replaces service a by service b
+// (NewService(b), then a.Terminate(): ordered in real time) while remote clients
+// list and look up. At every instant a or b is registered, so every listing is
+// one of {a}, {a,b}, {b} and two listings of one client never go back.
+func listDuringReplacement(fine bool) func() {
+	return func() {
+		d := startDirectory()
+		p1, p2 := d.client(), d.client()
+		svcA, err := d.srv.NewService("a", probe.ProbeObject(probe.New("a")))
+		if err != nil {
+			vrt.Failf("harness/new-service", "%v", err)
+			return
+		}
+		vrt.Quiesce()
+		vrt.Explore()
+		vrt.SetFine(fine)
+		var l1, l2, l3 []directory.ServiceInfo
+		var e1, e2, e3, lerr, terr error
+		wl := vrt.GoWorker("local", func() {
+			_, lerr = d.srv.NewService("b", probe.ProbeObject(probe.New("b")))
+			terr = svcA.Terminate()
+		})
+		w1 := vrt.GoWorker("lister", func() {
+			l1, e1 = p1.Services()
+			l2, e2 = p1.Services()
+		})
+		w2 := vrt.GoWorker("lister-2", func() {
+			l3, e3 = p2.Services()
+		})
+		vrt.Quiesce()
+		fx.Settle(wl, w1, w2)
+		if lerr != nil || terr != nil {
+			vrt.Failf("local-operation-failed", "NewService(b): %v, a.Terminate(): %v", lerr, terr)
+			return
+		}
+		rank := func(l []directory.ServiceInfo, err error, who string) int {
+			if err != nil {
+				vrt.Failf("listing-failed", "%s: %v", who, err)
+				return -1
+			}
+			names := map[string]bool{}
+			for _, i := range l {
+				names[i.Name] = true
+			}
+			if !names["ServiceDirectory"] || len(names) != len(l) {
+				vrt.Failf("listing-never-existed", "%s lists [%s]", who, shortList(l))
+				return -1
+			}
+			switch {
+			case names["a"] && !names["b"] && len(l) == 2:
+				return 0
+			case names["a"] && names["b"] && len(l) == 3:
+				vrt.Flag("listed-both")
+				return 1
+			case !names["a"] && names["b"] && len(l) == 2:
+				return 2
+			}
+			vrt.Failf("listing-never-existed", "%s lists [%s] while the server replaced a by b (b registered before a left): no instant had this set of services", who, shortList(l))
+			return -1
+		}
+		r1, r2, r3 := rank(l1, e1, "first listing"), rank(l2, e2, "second listing"), rank(l3, e3, "other client")
+		if r1 >= 0 && r2 >= 0 && r2 < r1 {
+			vrt.Failf("listing-goes-back", "one client listed [%s] and then [%s]", shortList(l1), shortList(l2))
+		}
+		final, err := p2.Services()
+		if rank(final, err, "final listing") != 2 && err == nil {
+			vrt.Failf("listing-differs", "after the replacement the directory lists [%s]", shortList(final))
+		}
+		vrt.Observe("listings %d %d %d", r1, r2, r3)
+	}
+}
 
 type regIn struct {
 	kind string
@@ -1060,6 +1302,14 @@ func init() {
 		Doc: "one client: register, ready, unregister of a and b without pause; events exactly once and added before removed on the subscriber's connection"})
 	reg.Register(&reg.Scenario{Property: "C15", Name: "sequential-3", Body: sequential(3, false), Quick: 0, Thorough: 0,
 		Doc: "all sequences of <=3 operations of a 28-operation alphabet (register/ready/unregister/update/service/services over names a,b,A,'' and ids 1..4, registrations with a client-filled serviceId, lookups of case twins) through a remote proxy, compared step by step with the reference registry; events compared at the end"})
+	reg.Register(&reg.Scenario{Property: "C15", Name: "list-during-local-replacement", Body: listDuringReplacement(false), Quick: 2, Thorough: 3,
+		Doc: "the hosting server registers b and then terminates a while two remote clients list: every listing is a set of services that existed at some instant ({a}, {a,b} or {b}), listings of one client never go back", MustFlag: []string{"listed-both"}})
+	reg.Register(&reg.Scenario{Property: "C15", Name: "list-during-local-replacement-statement-level", Body: listDuringReplacement(true), Quick: 1, Thorough: 2,
+		Doc: "the same with a scheduling point in front of every statement of bus/directory/directory.go"})
+	reg.Register(&reg.Scenario{Property: "C15", Name: "sequential-local-3", Body: sequentialLocal(3), Quick: 0, Thorough: 0,
+		Doc: "all sequences of <=3 operations mixing the hosting server's own namespace (Reserve / Enable / Remove / Resolve, reached through the session the server hands out) with remote register / ready / unregister / service / services, against the reference registry: a reserved name is held, identifiers are never handed out twice"})
+	reg.Register(&reg.Scenario{Property: "C15", Name: "sequential-local-4", Body: sequentialLocal(4), Quick: -1, Thorough: 0,
+		Doc: "the same, <=4 operations"})
 	reg.Register(&reg.Scenario{Property: "C15", Name: "sequential-4", Body: sequential(4, false), Quick: -1, Thorough: 0,
 		Doc: "all sequences of <=4 operations"})
 	reg.Register(&reg.Scenario{Property: "C15", Name: "sequential-from-populated-2", Body: sequential(2, true), Quick: 0, Thorough: 0,
